@@ -53,7 +53,7 @@ REQUIRED = {
     "cache_events_observed": 300,
     "cache_keys_observed": 60,
     "rebinding_probes": 40,
-    "request_kinds_seen": 7,
+    "request_kinds_seen": 8,
 }
 
 GRIDS = {
@@ -154,6 +154,11 @@ def build_pool(rng, size):
         for g in ("U6", "C6w", "P6", "S6", "C6", "C6e", "F1", "F1e", "S6e"):
             for backend in ("numpy", "numba"):
                 add({"kind": "rate", "eq": eqk, "grid": g, "bc": bc, "bc2": bc2, "backend": backend, "shared": True, "seed": 0})
+    # equations with field-valued constants that are modified in place between requests
+    for g in ("U6", "U64", "P6"):
+        for kval in (1.0, 5.0):
+            for backend in ("numba", "numpy", "interpreted", "solve-numba", "solve-numpy"):
+                add({"kind": "rate_const", "grid": g, "kval": kval, "backend": backend, "seed": 0})
     for g in ["U6p"]:
         for bc in ("periodic", "antiperiodic"):
             add({"kind": "make_operator", "grid": g, "op": "laplace", "kwargs": {}, "bc": bc, "dtype": "float64", "seed": 1})
@@ -267,6 +272,24 @@ def execute(req, ctx: Context):
         f = make_field(grid, req["seed"])
         if req["backend"] == "interpreted":
             return np.asarray(eq.evolution_rate(f, T).data)
+        return np.asarray(eq.make_pde_rhs(f, backend=req["backend"])(f.data.copy(), T))
+    if kind == "rate_const":
+        # equation with a field-valued constant; the constant field and the equation live as long
+        # as the history and the constant is modified IN PLACE before every request
+        grid = ctx.grid(req["grid"])
+        kkey, ekey = ("const-field", req["grid"]), ("const-eq", req["grid"])
+        k = ctx.eqs.get(kkey)
+        if k is None:
+            k = ctx.eqs[kkey] = pde.ScalarField(grid, 1.0)
+        k.data[...] = req["kval"] * (1 + 0.1 * np.arange(grid.shape[0]).reshape((-1,) + (1,) * (grid.num_axes - 1)))
+        eq = ctx.eqs.get(ekey)
+        if eq is None:
+            eq = ctx.eqs[ekey] = pde.PDE({"c": "k * c + laplace(c)"}, consts={"k": k}, bc="auto_periodic_neumann")
+        f = make_field(grid, req["seed"])
+        if req["backend"] == "interpreted":
+            return np.asarray(eq.evolution_rate(f, T).data)
+        if req["backend"].startswith("solve-"):
+            return np.asarray(eq.solve(f, t_range=0.1, dt=0.05, solver="euler", backend=req["backend"][6:], tracker=None).data)
         return np.asarray(eq.make_pde_rhs(f, backend=req["backend"])(f.data.copy(), T))
     if kind == "solve":
         grid = ctx.grid(req["grid"])
